@@ -60,12 +60,9 @@ func (conn *Conn) close() {
 		op.ConnClosed(conn)
 	}
 
-	/* call FidDestroy for all remaining fids */
-	if op, ok := (conn.Srv.ops).(SrvFidOps); ok {
-		for _, fid := range conn.fidpool {
-			op.FidDestroy(fid)
-		}
-	}
+	/* release all remaining fids: FidDestroy is called for each as soon
+	   as no executing request uses it any more */
+	conn.releaseFids()
 	verifPoint("close.exit", conn)
 }
 
